@@ -1224,6 +1224,16 @@ func (r *RangeEntry) String() string {
 var errNotExpectedValue = errors.New("not expected value")
 
 func (r *RangeEntry) CheckValue(v val.Value) error {
+	if v != nil && v.Format().IsList() {
+		// each element has to be inside this alternative on its own
+		var err error
+		val.ForEach(v, func(_ int, item val.Value) {
+			if err == nil {
+				err = r.CheckValue(item)
+			}
+		})
+		return err
+	}
 	if !r.Exact.Empty() {
 		if cmp, err := r.Exact.Compare(v); err != nil {
 			return err
@@ -1437,6 +1447,16 @@ var errListItemsRangeVaries = errors.New("values in list vary on both inside and
 func (r *Range) CheckValue(v val.Value) error {
 	if len(r.Entries) == 0 {
 		return nil
+	}
+	if v != nil && v.Format().IsList() {
+		// each element may sit in a different alternative
+		var err error
+		val.ForEach(v, func(_ int, item val.Value) {
+			if err == nil {
+				err = r.CheckValue(item)
+			}
+		})
+		return err
 	}
 	for _, e := range r.Entries {
 		if err := e.CheckValue(v); err == nil {
